@@ -1008,6 +1008,11 @@ def m_markup(m):
     k = m.params[i][0]
     mk = m.new_marker()
     m.payload = m.rng.choice(PAYLOADS).format(m=mk)
+    if m.rng.random() < 0.12:
+        # long runs of characters that must be escaped, at every alignment: a limit, a buffer or a cut applied to the
+        # escaped text shows only when it falls inside a character reference
+        unit = m.rng.choice(['<', '&', '"\'', '<x>&', '>', "'", '&amp;', '<![CDATA['])
+        m.payload = 'a' * m.rng.randrange(8) + unit * m.rng.choice([60, 130, 200, 260, 340, 520, 1100, 2100, 4200]) + mk
     m.klass, m.param = 'markup', k.upper()
     how = m.rng.random()
     old = m.params[i][1]
